@@ -676,11 +676,11 @@ def rule_scheduler_run(rep, repo, tier):
                                             for kv in sorted(sc.items()))
     log = []
 
-    def mkq(name, knob=True):
+    def mkq(name, knob=True, factor=1.0):
       at = {"name": name, "use_ste": None, "use_variables": False,
             "built": False}
       if knob:
-        at["qnoise_factor"] = 1.0
+        at["qnoise_factor"] = factor
       m = Mock(name, at)
 
       def upd(pe, a, k, m=m):
@@ -691,7 +691,9 @@ def rule_scheduler_run(rep, repo, tier):
       m.attrs["build"] = lambda pe, a, k: None
       return m
     q1, q2, q3 = mkq("q1"), mkq("q2", knob=False), mkq("q3")
-    q4 = mkq("q4")
+    # a knob that currently stands at 0 (pre-training without quantization,
+    # or left there by an earlier phase) is a knob all the same
+    q4 = mkq("q4", factor=0.0)
     model = Mock("model", {"layers": [
         Mock("layer with quantizers", {"quantizers": [q2, q1, None, q4]}),
         Mock("activation layer", {"quantizer": q3}),
